@@ -260,6 +260,16 @@ def run(ctx):
         ids, tr = registered(s, xp)
         r2b.check(em <= ids, f"bind[{desc}]", "every message itext id emitted on the bind is registered", "pyxform/survey_element.py",
                   why_fail=f"emitted {sorted(em)} registered {sorted(ids)}")
+        # a registered text that contains a reference is resolved from the element that owns the cell: the entry carries
+        # that element as its output context (without it the reference is resolved from nowhere: absolute paths in a repeat)
+        for msg_key, mv in (("jr:constraintMsg", cv), ("jr:requiredMsg", rv)):
+            texts = [mv] if isinstance(mv, str) else (list(mv.values()) if isinstance(mv, dict) else [])
+            if not any(isinstance(t_, str) for t_ in texts) or not (isinstance(mv, dict) or "${" in mv):
+                continue
+            entries = [d_.get(f"/data/q1:{msg_key}") for d_ in tr.values() if isinstance(d_.get(f"/data/q1:{msg_key}"), dict)]
+            ctxs = [v_.get("output_context") for e_ in entries for v_ in e_.values() if isinstance(v_, dict)]
+            r2b.check(bool(ctxs) and all(c_ is q for c_ in ctxs), f"bind[{desc}]:{msg_key} output context", "the registered message is resolved from its own element", "pyxform/survey_element.py",
+                      why_fail=f"contexts {[getattr(c_, 'name', c_) for c_ in ctxs]}")
         # an unsuffixed message that needs itext (it contains a reference) belongs to the survey's default language,
         # whatever that language is called
         if any(isinstance(v, str) and "${" in v for v in (cv, rv)):  # (a plain noAppErrorString is never redirected to itext)
